@@ -305,5 +305,34 @@ pub fn main(args: &[String]) {
         Err(e) => rep.disagree("*", "model-driver", "", &e),
     }
     cpp_delete_fragment(&mut rep);
+    // end to end, under AddressSanitizer: real macro → staticlib, real C headers → C driver; every opaque handed
+    // to C is destroyed exactly once (drop log), owned arguments are released by Rust, callback destructors run
+    // once, the write buffers (caller-owned exact fit, growable from a small capacity) are not overrun
+    {
+        use crate::e2e;
+        let ne = if thorough { 120 } else { 16 };
+        let prof = crate::c01::c_profile();
+        let mut cases = vec![];
+        let mut tries = 0;
+        while cases.len() < ne && tries < ne * 3 {
+            tries += 1;
+            let m = crate::tygen::Gen::valid_module_avoiding(&mut rng, prof, crate::tygen::Avoid { more_zst: true, opt_unit_write: true, ..Default::default() });
+            let case = e2e::make_case(m, cases.len(), &mut rng);
+            if crate::tool::run_backend(&case.rust(), "c").ok() {
+                cases.push(case);
+            }
+        }
+        for chunk_start in (0..cases.len()).step_by(40) {
+            let chunk = &cases[chunk_start..(chunk_start + 40).min(cases.len())];
+            let lab = |k: usize| format!("(c03 e2e seed={} module={})", a.seed, chunk_start + k);
+            for o in crate::c01::run_e2e("C03", chunk, &mut rep, true, &lab) {
+                rep.oracle_runs += 1;
+                rep.count(&format!("e2e-asan:{}", if o.problems.is_empty() { "ok" } else { o.stage.as_str() }));
+                if !o.problems.is_empty() {
+                    rep.oracle_fail(&lab(o.case_idx), "a call sequence through the generated C API (under AddressSanitizer) drops a value twice, never, or touches memory it does not own", serde_json::json!({"problems": o.problems, "source": chunk[o.case_idx].rust(), "transcript": o.transcript.iter().take(60).collect::<Vec<_>>()}));
+                }
+            }
+        }
+    }
     rep.print();
 }
